@@ -826,12 +826,29 @@ def tab15(units, R):
     n = 0
     for fn in print_family(u):
         cfg = fn.cfg()
+        # locals that hold a copy of ->format (const cJSON_bool format = output_buffer->format;) stand for it
+        fcopies = set()
+        for d_ in fn.locals():
+            if 'init' in d_ and is_mem(d_['init'], 'format') and \
+                    not any(strip_casts(a['l']).get('k') == 'ref' and strip_casts(a['l'])['d'] == d_['d'] for a in assignments(fn)):
+                fcopies.add(d_['d'])
+        for a_ in assignments(fn):
+            l_ = strip_casts(a_['l'])
+            if l_.get('k') == 'ref' and a_['op'] == '=' and is_mem(a_['r'], 'format') and \
+                    sum(1 for b_ in assignments(fn) if strip_casts(b_['l']).get('k') == 'ref' and strip_casts(b_['l'])['d'] == l_['d']) == 1 and \
+                    not any(d_['d'] == l_['d'] and 'init' in d_ and const_val(d_['init']) is None for d_ in fn.locals()):
+                fcopies.add(l_['d'])
+
+        def is_fmt(e):
+            e = strip_casts(e)
+            return is_mem(e, 'format') or (e.get('k') == 'ref' and e.get('d') in fcopies)
+
         def is_format_test(e):
             e = strip_casts(e)
-            if is_mem(e, 'format'):
+            if is_fmt(e):
                 return True
             p = cmp_parts(e)
-            return p is not None and p[2] == 0 and p[1] in ('==', '!=') and is_mem(p[0], 'format')
+            return p is not None and p[2] == 0 and p[1] in ('==', '!=') and is_fmt(p[0])
         fbranches = [b for b in cfg.nodes if b.kind == 'branch' and is_format_test(b.expr)]
         if not fbranches:
             continue
@@ -860,7 +877,7 @@ def tab15(units, R):
                                  'the formatted and unformatted output would differ in more than whitespace', key='fmtcall:%s' % callee_name(ev.node))
         # value-context uses: format ? a : b must be integer constants (lengths)
         for x in fn.nodes():
-            if x.get('k') == 'cond' and is_mem(x['c'], 'format'):
+            if x.get('k') == 'cond' and is_format_test(x['c']):
                 n += 1
                 ok = u.ty(x['ty'])['c'] == 'int'
                 R.ob('TAB15', fn, x, 'format selects a length only', ok, expr_str(x)[:50], key='fmtcond:%s' % expr_str(x)[:40])
